@@ -5,7 +5,7 @@
    encoding and of every mutant (header rewritten with other length forms, leading zeros,
    off-by-one and extreme lengths up to 2^64-1, truncations, extensions). One TLC state per input. *)
 EXTENDS Rlp, Json
-Cases == ndJsonDeserialize("cases.ndjson")
+Cases == TLCEval(ndJsonDeserialize("cases.ndjson"))      \* evaluated once (a cfg override `Cases <- ...` would re-read the file on every use)
 VARIABLES k, j, b
 \* (0, 0) is a start state that fans out to one state per case and then one per input, so that
 \* all the evaluation happens in parallel on TLC's worker threads (deep recursion needs their large stacks)
@@ -18,6 +18,6 @@ IsInput == k > 0 /\ j <= Len(Cases[k].m)
 Spec == Init /\ [][Next]_<<k, j, b>>
 GeneratorAgrees == IsInput => Cases[k].e = Enc(Cases[k].t)
 RoundTrips == (IsInput /\ j = 0) => RoundTrip(Cases[k].t)
-LawsHold == IsInput => Laws(b)
-Emit == IsInput => PrintT(ToJson(Row(b)))
+Judge == IsInput => LET s == DecodeString(b)  l == DecodeList(b)  d == Deep(b) IN
+                    LawsOf(b, s, l, d) /\ PrintT(ToJson(RowOf(b, s, l, d)))
 =============================================================================
